@@ -96,11 +96,12 @@ func Check() *common.Check {
 		ID:    "C15",
 		Level: "exploration",
 		Rule: "every SELECT / set operation / INSERT / UPDATE / DELETE / MERGE statement of the sqlgen space (quick: without 3-operator shapes; thorough: all) that the parser accepts; the generator records every identifier it places with its role " +
-			"(table, column, function, alias, cte, string), names of different roles are drawn from disjoint families (t*, c*, f*/known functions, a*, w*, s*); each statement is also re-extracted under the one-lexeme-per-line lower-case layout. " +
+			"(table, column, function, alias, cte, string), names of different roles are drawn from disjoint families (t*, c*, f*/known functions, a*, w*, s*); each statement is also re-extracted under the one-lexeme-per-line lower-case layout; UNION ALL chains and AND / OR chains (a sub-query in the first / last operand) of 1..12, 49..51, 98..103, 140, 200, 300, 500 operands and IN sub-queries nested 1..99 deep, every branch / level with names of its own. " +
 			"distinct = distinct SQL text; non-trivial = at least two names of different roles placed",
 		Assume: []string{"the unqualified table variant may or may not keep a schema prefix (the property only fixes the qualified variant): compared on the last name component",
 			"function names compared case-insensitively", "DDL statements are outside this property's statement list"},
 		Enumerate: func(e *common.Enum) {
+			enumerateDeep(e)
 			sqlgen.All(e.Thorough(), func(name string, s sqlgen.S) {
 				switch s.Kind {
 				case "select", "setop", "insert", "update", "delete", "merge":
@@ -210,6 +211,109 @@ func Check() *common.Check {
 				})
 			})
 		},
+	}
+}
+
+// enumerateDeep: long chains and deep nestings with a name of its own at every level / in every branch.  Set
+// operations and AND / OR chains are parsed by loops (one tree level per operand, no parser recursion), sub-queries add
+// two tree levels per level of nesting: trees get far deeper than the parser's nesting limit.
+func enumerateDeep(e *common.Enum) {
+	type gen func(n int) (sql string, tables, cols, funcs []string)
+	shapes := []struct {
+		name string
+		ns   []int
+		f    gen
+	}{
+		{"union-chain", nil, func(n int) (string, []string, []string, []string) {
+			var parts, ts, cs, fs []string
+			for i := 0; i < n; i++ {
+				parts = append(parts, fmt.Sprintf("SELECT c%d, f%d(d%d) FROM t%d", i, i, i, i))
+				ts, cs, fs = append(ts, fmt.Sprintf("t%d", i)), append(cs, fmt.Sprintf("c%d", i), fmt.Sprintf("d%d", i)), append(fs, fmt.Sprintf("F%d", i))
+			}
+			return strings.Join(parts, " UNION ALL "), ts, cs, fs
+		}},
+		{"and-chain-subquery-first", nil, func(n int) (string, []string, []string, []string) {
+			sql := "SELECT c FROM t WHERE x0 IN (SELECT y0 FROM u0 WHERE g0(z0) > 0)"
+			cs := []string{"c", "x0", "y0", "z0"}
+			for i := 1; i < n; i++ {
+				sql += fmt.Sprintf(" AND x%d = %d", i, i)
+				cs = append(cs, fmt.Sprintf("x%d", i))
+			}
+			return sql, []string{"t", "u0"}, cs, []string{"G0"}
+		}},
+		{"or-chain-subquery-last", nil, func(n int) (string, []string, []string, []string) {
+			sql := "SELECT c FROM t WHERE x0 = 0"
+			cs := []string{"c", "x0", "yl", "zl"}
+			for i := 1; i < n; i++ {
+				sql += fmt.Sprintf(" OR x%d = %d", i, i)
+				cs = append(cs, fmt.Sprintf("x%d", i))
+			}
+			sql += " OR EXISTS (SELECT yl FROM ul WHERE gl(zl) > 0)"
+			return sql, []string{"t", "ul"}, cs, []string{"GL"}
+		}},
+		{"nested-in", []int{}, func(d int) (string, []string, []string, []string) {
+			sql, ts, cs, fs := "SELECT c0 FROM t0 WHERE c0 IN ", []string{"t0"}, []string{"c0"}, []string{}
+			for i := 1; i <= d; i++ {
+				sql += fmt.Sprintf("(SELECT c%d FROM t%d WHERE f%d(d%d) > 0 AND c%d IN ", i, i, i, i, i)
+				ts, cs, fs = append(ts, fmt.Sprintf("t%d", i)), append(cs, fmt.Sprintf("c%d", i), fmt.Sprintf("d%d", i)), append(fs, fmt.Sprintf("F%d", i))
+			}
+			return sql + "(1)" + strings.Repeat(")", d), ts, cs, fs
+		}},
+	}
+	var chain []int
+	for n := 1; n <= 12; n++ {
+		chain = append(chain, n)
+	}
+	chain = append(chain, 49, 50, 51, 98, 99, 100, 101, 102, 103, 140, 200, 300, 500)
+	var depths []int
+	for d := 1; d <= 99; d++ {
+		depths = append(depths, d)
+	}
+	for _, sh := range shapes {
+		ns := chain
+		if sh.name == "nested-in" {
+			ns = depths
+		}
+		for _, n := range ns {
+			sh, n := sh, n
+			e.Do(fmt.Sprintf("deep|%s|%d", sh.name, n), func(c *common.Ctx) {
+				sql, ts, cs, fs := sh.f(n)
+				c.Input(fmt.Sprintf("%s with n = %d: %s", sh.name, n, common.Trim(sql, 200)))
+				got, _, _, err := extract(sql)
+				if err != nil {
+					c.Outcome("deep:rejected")
+					return
+				}
+				check := func(what string, want, gotl []string, norm func(string) string) {
+					g := map[string]bool{}
+					for _, x := range gotl {
+						g[norm(x)] = true
+					}
+					var miss []string
+					for _, w := range want {
+						if !g[w] {
+							miss = append(miss, w)
+						}
+					}
+					if len(miss) > 0 {
+						c.Fail("deep:"+what+":missing@"+sh.name, fmt.Sprintf("%s misses %d of the %d names written in the statement (first: %v)", what, len(miss), len(want), miss[:1]))
+					}
+					if len(g) != len(want) {
+						if len(miss) == 0 {
+							c.Fail("deep:"+what+":extra@"+sh.name, fmt.Sprintf("%s returns %d names, the statement writes %d", what, len(g), len(want)))
+						}
+					}
+				}
+				id := func(x string) string { return x }
+				check("tables", ts, got.tables, last)
+				check("tables-qualified", ts, got.tablesQ, id)
+				check("columns", cs, got.cols, id)
+				check("columns-qualified", cs, got.colsQ, id)
+				check("functions", fs, got.funcs, strings.ToUpper)
+				c.Outcome("deep:" + sh.name)
+				c.NonTrivial()
+			})
+		}
 	}
 }
 
